@@ -44,6 +44,8 @@ def check(chk, repo):
     # the forest lives on the k-NN graph of the selected k only: no arcs of an earlier build may survive
     from .c12 import check_typestate
     check_typestate(chk, rep, repo)
+    from .c12 import check_destroy
+    check_destroy(rep, repo)
     from ..rules_heap import check_heap
     check_heap(rep, repo, "HEAP-")
     chk.undecided += [
